@@ -418,6 +418,8 @@ def obs_c16(c: Ctx, *, styles=None, rotate=0):
         name_ids.setdefault(c.b.nodes[i].name, []).append(i)
     rendering_str = "\u0001{node.name}\u0001" if all(len(v) == 1 for v in name_ids.values()) else rendering
 
+    lenonly_holder = {"v": False}
+
     def parse(text, join, style_tuple, expect_title):
         lines = text.split(join) if text else []
         title = "none"
@@ -432,6 +434,9 @@ def obs_c16(c: Ctx, *, styles=None, rotate=0):
             px = ln[:pos]
             if style_tuple is None:
                 prefixes.append([] if px == "" else [9])
+            elif lenonly_holder["v"]:
+                L = len(style_tuple[0])
+                prefixes.append([-1] * (len(px) // L) if len(px) % L == 0 else [-9])
             else:
                 tk = _tokenize(px, style_tuple)
                 prefixes.append(tk if tk is not None else [-1])
@@ -440,8 +445,14 @@ def obs_c16(c: Ctx, *, styles=None, rotate=0):
     k = rotate
     for sname in names + ["list"]:
         style_tuple = None if sname == "list" else all_styles[sname]
+        lenonly = False
         if style_tuple is not None and not style_is_decodable(style_tuple):
-            continue  # ambiguous segments (space*): handled by obs_c16_lengths
+            # ambiguous segments (space1..space4): all segments have one length, so only the number of segments
+            # per line (= depth information) can be recovered
+            if len({len(x) for x in style_tuple}) != 1:
+                continue
+            lenonly = True
+        lenonly_holder["v"] = lenonly
         style_arg = sname if sname in CONNECTORS or sname == "list" else style_tuple
         compact = style_tuple is not None and len(style_tuple) == 6
         for title_mode in ("default", "false", "text"):
@@ -456,7 +467,7 @@ def obs_c16(c: Ctx, *, styles=None, rotate=0):
                 return tree.format(repr=rp, style=style_arg, title=title_arg, join=join)
 
             a = {"start": 0, "self": exp_title != "none", "lstrip": lstrip, "compact": compact, "list": sname == "list",
-                 "style": sname, "title": exp_title, "join": join}
+                 "style": sname, "title": exp_title, "join": join, "lenonly": lenonly}
             out.append({"q": "format", "a": a,
                         "r": call(fn, lambda t, join=join, stt=style_tuple, et=exp_title: parse(t, join, stt, et))})
         for i in range(1, n + 1):
@@ -470,7 +481,7 @@ def obs_c16(c: Ctx, *, styles=None, rotate=0):
                     return nd.format(repr=rendering, style=style_arg, add_self=self_, join=join)
 
                 a = {"start": i, "self": self_, "lstrip": depth + (0 if self_ else 1), "compact": compact,
-                     "list": sname == "list", "style": sname, "title": "none", "join": join}
+                     "list": sname == "list", "style": sname, "title": "none", "join": join, "lenonly": lenonly}
                 out.append({"q": "format", "a": a,
                             "r": call(fn, lambda t, join=join, stt=style_tuple: parse(t, join, stt, None))})
     return out
